@@ -115,13 +115,15 @@ def exportWithinBlocks (a e : TS) (blocks : List (FName × Key × TS × TS)) (tg
 def exportExact (a e : TS) (src tgt : Dump) : Bool :=
   (dumpFlat tgt).all (fun p => decide (a ≤ p.2.1) && decide (p.2.1 ≤ e) && dumpHas src p.1 p.2.1 p.2.2)
 
+def minOf (x : TS) (l : List TS) : TS := l.foldl min x
+def maxOf (x : TS) (l : List TS) : TS := l.foldl max x
+
 /-- a file (by its block listing) overlaps [a,e] although none of its blocks does -/
 def gapFile (a e : TS) (blocks : List (FName × Key × TS × TS)) : Bool :=
   blocks.any (fun b =>
     let mine := blocks.filter (fun c => c.1 == b.1)
-    let mn := mine.foldl (fun m c => min m c.2.2.1) b.2.2.1
-    let mx := mine.foldl (fun m c => max m c.2.2.2) b.2.2.2
-    overlaps mn mx a e && mine.all (fun c => !overlaps c.2.2.1 c.2.2.2 a e))
+    overlaps (minOf b.2.2.1 (mine.map (·.2.2.1))) (maxOf b.2.2.2 (mine.map (·.2.2.2))) a e &&
+      mine.all (fun c => !overlaps c.2.2.1 c.2.2.2 a e))
 
 /-- "nothing older is needed given a previous backup": from the two listings,
     every file of the second backup's shard is in the incremental archive, or was
@@ -154,16 +156,6 @@ def judge (recs : List Rec) : Op → Obs → List Sig × List Rec
           [if hasTombstone r.files then .restoreLostTombstone else .restoreDiffers]), recs)
       | _ => ([], recs)
     | none => ([.badObservation], recs)
-  | .restore [i1, i2], .target _ d =>
-    match findRec recs i1, findRec recs i2 with
-    | some r1, some r2 =>
-      match r1.made, r2.made with
-      | .backup none, .backup (some _) =>
-        ((if sameContent r2.d d then [] else
-          if hasTombstone r1.files || hasTombstone r2.files then [.restoreLostTombstone]
-          else if chainApplies r1 r2 then [.chainRestoreDiffers] else []), recs)
-      | _, _ => ([], recs)
-    | _, _ => ([.badObservation], recs)
   | .importA [id], .target _ d =>
     match findRec recs id with
     | some r =>
@@ -194,6 +186,27 @@ def judge (recs : List Rec) : Op → Obs → List Sig × List Rec
   | .age _, .badOp => ([], recs)
   | .dump, .dumped _ => ([], recs)
   | _, _ => ([.badObservation], recs)
+
+/-- the chain check (full + incremental restore), a corollary clause that is not
+    part of the property's text: judged separately -/
+def judgeChain (recs : List Rec) : Op → Obs → List Sig
+  | .restore [i1, i2], .target _ d =>
+    match findRec recs i1, findRec recs i2 with
+    | some r1, some r2 =>
+      match r1.made, r2.made with
+      | .backup none, .backup (some _) =>
+        if sameContent r2.d d then [] else
+        if hasTombstone r1.files || hasTombstone r2.files then [.restoreLostTombstone]
+        else if chainApplies r1 r2 then [.chainRestoreDiffers] else []
+      | _, _ => []
+    | _, _ => []
+  | _, _ => []
+
+def chainFailuresFrom (recs : List Rec) : List (Op × Obs) → List Sig
+  | [] => []
+  | (op, o) :: rest => judgeChain recs op o ++ chainFailuresFrom (judge recs op o).2 rest
+
+def chainFailures (c : List (Op × Obs)) : List Sig := chainFailuresFrom [] c
 
 /-- all failures of a case, in order -/
 def failuresFrom (recs : List Rec) : List (Op × Obs) → List Sig
